@@ -131,7 +131,7 @@ def comb_programs(rng, n):
         idx = rng.randrange(k)
         nn = 2 * idx + 1 if idx < k - 1 else 2 * idx
         kind = rng.choice(['GET n', 'UPDATE n', 'UNPAIR n', 'PACK', 'COMPARE', 'PACK;UNPACK', 'CAR/CDR', 'nested', 'field-then-None', 'field-then-None',
-                           'field-then-wrap', 'field-then-wrap', 'rebuild-then-compare', 'rebuild-then-compare', 'APPLY-capture', 'FAILWITH-record'])
+                           'field-then-wrap', 'field-then-wrap', 'rebuild-then-compare', 'rebuild-then-compare', 'APPLY-capture', 'FAILWITH-record', 'MAP-projecting-field', 'MAP-projecting-field'])
         if kind == 'GET n':
             code = [PUSH(t, v), I('GET', N(rng.choice([nn, rng.randint(0, 2 * k - 2)])))]
         elif kind == 'UPDATE n':
@@ -190,6 +190,23 @@ def comb_programs(rng, n):
                 code = [PUSH(T.set_(t3), [v3]), PUSH(t3, v3)] + rebuild + [I('MEM')]
             else:
                 code = [PUSH(T.map_(t3, T.NAT), [(v3, 7)]), PUSH(t3, v3)] + rebuild + [I('GET')]
+        elif kind == 'MAP-projecting-field':
+            # MAP / ITER bodies whose results (or a map's keys) are components projected out of records
+            rec = T.pair(rng.choice(leaf_types[:5]), rng.choice(leaf_types[:5]))
+            rv1, rv2 = G.gen_value(rng, rec), G.gen_value(rng, rec)
+            which = rng.choice(['map-values', 'map-values-get', 'list', 'key-from-field', 'set-from-field'])
+            proj = rng.choice([[I('CDR'), I('CAR')], [I('CDR'), I('CDR')], [I('CDR'), I('GET', N(1))]])
+            if which == 'map-values':
+                code = [PUSH(T.map_(T.STRING, rec), [('a', rv1), ('b', rv2)]), I('MAP', proj)]
+            elif which == 'map-values-get':
+                code = [PUSH(T.map_(T.NAT, rec), [(1, rv1)]), I('MAP', proj), PUSH(T.NAT, 1), I('GET')]
+            elif which == 'list':
+                code = [PUSH(T.list_(rec), [rv1, rv2]), I('MAP', [proj[1]])]
+            elif which == 'key-from-field' and T.comparable(rec[1]):
+                code = [I('EMPTY_MAP', TY(rec[1]), TY(T.NAT)), PUSH(rec, rv1), I('CAR'), PUSH(T.option(T.NAT), ('Some', 5)), I('SWAP'), I('UPDATE'),
+                        I('MAP', [I('CDR'), PUSH(T.NAT, 1), I('ADD')])]
+            else:
+                code = [I('EMPTY_SET', TY(rec[1])), PUSH(rec, rv1), I('CAR'), PUSH(T.BOOL, True), I('SWAP'), I('UPDATE'), I('SIZE')] if T.comparable(rec[1]) else [PUSH(rec, rv1), I('CAR')]
         elif kind == 'FAILWITH-record':
             code = [PUSH(t, v)] + ([I('UNPAIR'), I('PAIR')] if rng.random() < 0.3 else []) + [I('FAILWITH')]
         elif kind == 'APPLY-capture':
